@@ -17,7 +17,10 @@ def run(tier, seed):
     tf = f"{w}/trace.ndjson"
     r1 = vh(["idrules", "--in", sh, "--reps", 2 if quick else 3, "--seed", seed, "--out-trace", tf], name="c20", timeout=3000)
     v.add_report(r1, "name shapes")
-    validated, ts = validate_trace(v, "Trace_IdRules.tla", "Trace_IdRules.cfg", tf, splitter="Name", max_rounds=8)
+    if quick:
+        validated, ts = validate_trace(v, "Trace_IdRules.tla", "Trace_IdRules.cfg", tf, splitter="Name", max_rounds=8)
+    else:
+        validated, ts = validate_trace_chunked(v, "Trace_IdRules.tla", "Trace_IdRules.cfg", tf, splitter="Name")
     nviol, _ = v.finish()
     cov = std_cov([g], [r1], {
         "rule": "one case = one name shape (token-kind sequence up to 3 (quick) / 5 (thorough) core tokens x leading number x trailing "
